@@ -1,3 +1,4 @@
+import FoxModel.Model.Redact
 import FoxModel.Util
 import FoxModel.Model.Recovery
 /-
@@ -53,6 +54,17 @@ def specialScope (scope : String) : Option String :=
   if scope == "noroute" then some "NoRouteHandler" else if scope == "nomethod" then some "NoMethodHandler"
   else if scope == "options" then some "OptionsHandler" else if scope == "redirect" then some "RedirectHandler" else none
 
+def strLt : Str → Str → Bool
+  | [], [] => false
+  | [], _ :: _ => true
+  | _ :: _, [] => false
+  | a :: as, b :: bs => if a < b then true else if b < a then false else strLt as bs
+
+/-- insertion by header name (net/http writes the headers of a dump in the byte order of their names) -/
+def insByName (h : Str × Str) : List (Str × Str) → List (Str × Str)
+  | [] => [h]
+  | x :: xs => if strLt h.1 x.1 then h :: x :: xs else x :: insByName h xs
+
 def handleP (valS progS scope hdrS : String) : String :=
   match parseVal valS, parseProgress progS with
   | some v, some p =>
@@ -70,9 +82,23 @@ def handleP (valS progS scope hdrS : String) : String :=
       else toHex (ascii "id") ++ "=" ++ toHex (ascii "42")
     let route := if !d.logged then "-" else routeName
     let params := if !d.logged then "-" else paramStr
+    -- the request-dump section of the record, byte for byte: the dump net/http writes for the request the harness sends
+    -- (request line, Host, the headers in byte order of their names, an empty line) through the loop of recovery.go
+    let method := if scope == "options" then "OPTIONS" else "GET"
+    let path := if scope == "noroute" then "/nowhere/42" else "/r/42"
+    let hdrs : List (Str × Str) := if hdrS == "-" then [] else
+      (hdrS.splitOn ",").map fun kv => (bytesOfHex ((kv.splitOn "=").headD ""), bytesOfHex (((kv.splitOn "=").drop 1).headD ""))
+    let oddHost := match hdrs with
+      | h :: _ => h.1.length % 2 == 0 && scope != "routehost"
+      | [] => false
+    let host := if oddHost then asciiStr "exa\rmple.com" else asciiStr "example.com"
+    let sorted := hdrs.foldr (fun h acc => insByName h acc) []
+    let dump := Redact.redactDump (Redact.mkDump (asciiStr (method ++ " " ++ path ++ " HTTP/1.1")) ((asciiStr "Host", host) :: sorted))
+    let dumpS := if d.logged then hexOfStr dump else "-"
     let m := "out=" ++ out ++ ",logged=" ++ (if d.logged then "1" else "0") ++ ",status=" ++ toString status ++
       ",touched=" ++ (if d.handled then "1" else "0") ++ ",redacted=" ++ (if red.isEmpty then "-" else join red "+") ++
-      ",route=" ++ route ++ ",params=" ++ params ++ ",reqline=" ++ (if d.logged then "1" else "0") ++ "," ++ followOk true true
+      ",route=" ++ route ++ ",params=" ++ params ++ ",reqline=" ++ (if d.logged then "1" else "0") ++ ",dump=" ++ dumpS ++
+      "," ++ followOk true true
     -- what the property demands
     let (rep, fresh) := Spec.outcome v p
     let sstatus := if fresh then 500 else if p != .nothing then startedStatus progS else 0
